@@ -8,11 +8,15 @@ package vers
 // ---- validation (C17): every syntactic rejection reason of the property is an error
 
 //@ spec schemeOf(s string) string = strings.SplitN(s[5:], "/", 2)[0]
+// how many of the first n constraints are a star (recursive specification, for "a star can occur only once")
+//@ spec stars(cl []string, n int) int = n <= 0 ? 0 : stars(cl, n - 1) + (strings.TrimSpace(cl[n - 1]) == "*" ? 1 : 0)
 //@ func valid
+//@   ensures one-star: strings.HasPrefix(versString, "vers:") && len(strings.SplitN(versString[5:], "/", 2)) == 2 && stars(strings.Split(strings.SplitN(versString[5:], "/", 2)[1], "|"), len(strings.Split(strings.SplitN(versString[5:], "/", 2)[1], "|"))) > 1 ==> result != nil   [C17] using count
 //@   ensures shape: result == nil ==> len(versString) >= 5 && len(strings.SplitN(versString[5:], "/", 2)) == 2
 //@   ensures prefix: !strings.HasPrefix(versString, "vers:") ==> result != nil                              [C17]
 //@   ensures scheme-charset: strings.HasPrefix(versString, "vers:") && len(strings.SplitN(versString[5:], "/", 2)) == 2 ==> (forall i int :: 0 <= i && i < len(schemeOf(versString)) && !((schemeOf(versString)[i] >= 'a' && schemeOf(versString)[i] <= 'z') || (schemeOf(versString)[i] >= '0' && schemeOf(versString)[i] <= '9')) ==> result != nil)   [C17]
 //@   loop 3 invariant starCount >= 0 && starCount <= rangeindex + 1 && (forall j int :: 0 <= j && j <= rangeindex && strings.TrimSpace(constraintList[j]) == "*" ==> starCount >= 1) && (forall j int :: 0 <= j && j <= rangeindex && strings.TrimSpace(constraintList[j]) != "*" && strings.TrimSpace(constraintList[j]) != "" ==> hasOtherConstraints)
+//@   loop 3 invariant count: rangeindex < len(constraintList) && starCount == stars(constraintList, rangeindex + 1)
 //@   ensures star-alone: strings.HasPrefix(versString, "vers:") && len(strings.SplitN(versString[5:], "/", 2)) == 2 ==> ((exists i int :: 0 <= i && i < len(strings.Split(strings.SplitN(versString[5:], "/", 2)[1], "|")) && strings.TrimSpace(strings.Split(strings.SplitN(versString[5:], "/", 2)[1], "|")[i]) == "*") ==> ((exists k int :: 0 <= k && k < len(strings.Split(strings.SplitN(versString[5:], "/", 2)[1], "|")) && strings.TrimSpace(strings.Split(strings.SplitN(versString[5:], "/", 2)[1], "|")[k]) != "*" && strings.TrimSpace(strings.Split(strings.SplitN(versString[5:], "/", 2)[1], "|")[k]) != "") ==> result != nil))   [C17]
 //@   ensures printable-ascii: forall i int :: 0 <= i && i < len(versString) && (versString[i] < 32 || versString[i] > 126) ==> result != nil   [C17]
 //@   ensures separator: strings.HasPrefix(versString, "vers:") && len(strings.SplitN(versString[5:], "/", 2)) != 2 ==> result != nil   [C17]
